@@ -27,6 +27,8 @@ import (
 	pv2 "github.com/godaddy/asherah/go/appencryption/plugins/aws-v2/kms"
 
 	"asherahverif/doubles"
+	"asherahverif/explore"
+	"asherahverif/shim/vsched"
 )
 
 // ---------------------------------------------------------------------------------
@@ -45,6 +47,7 @@ type cloud struct {
 	retained  [][]byte       // plaintext slices handed to the plugins (GenerateDataKey / Decrypt outputs)
 	retainedOp []string
 	counter   uint64
+	foreign   []string // requests that named a key of another region
 }
 
 func newCloud() *cloud {
@@ -53,7 +56,7 @@ func newCloud() *cloud {
 
 func (c *cloud) reset() {
 	c.mu.Lock()
-	c.calls, c.retained, c.retainedOp = nil, nil, nil
+	c.calls, c.retained, c.retainedOp, c.foreign = nil, nil, nil, nil
 	c.mu.Unlock()
 }
 
@@ -82,6 +85,26 @@ func (c *cloud) open(region string, blob []byte) ([]byte, error) {
 }
 
 var errFakeKMS = errors.New("fake kms: injected regional failure")
+
+// checkKey is what a regional endpoint does with the key id of a request: a master key of another region (or no key
+// id at all) is not found there. Every request is also a scheduling point of the schedule harness.
+func (c *cloud) checkKey(op, region string, keyID *string) error {
+	if vsched.Active() {
+		vsched.Yield("kms." + op + "." + region)
+	}
+	if keyID != nil && *keyID == arnOf(region) {
+		return nil
+	}
+	got := "<nil>"
+	if keyID != nil {
+		got = *keyID
+	}
+	c.mu.Lock()
+	c.calls = append(c.calls, "foreignkey:"+region)
+	c.foreign = append(c.foreign, fmt.Sprintf("%s in %s was asked for key %s", op, region, got))
+	c.mu.Unlock()
+	return fmt.Errorf("fake kms: NotFoundException: key %s does not exist in %s", got, region)
+}
 
 func (c *cloud) generate(region, arn string) ([]byte, []byte, error) {
 	c.mu.Lock()
@@ -152,6 +175,9 @@ type fakeV1 struct {
 }
 
 func (f fakeV1) EncryptWithContext(_ awsv1.Context, in *kmsv1.EncryptInput, _ ...reqv1.Option) (*kmsv1.EncryptOutput, error) {
+	if err := f.c.checkKey("enc", f.region, in.KeyId); err != nil {
+		return nil, err
+	}
 	b, err := f.c.encrypt(f.region, in.Plaintext)
 	if err != nil {
 		return nil, err
@@ -160,6 +186,9 @@ func (f fakeV1) EncryptWithContext(_ awsv1.Context, in *kmsv1.EncryptInput, _ ..
 }
 
 func (f fakeV1) GenerateDataKeyWithContext(_ awsv1.Context, in *kmsv1.GenerateDataKeyInput, _ ...reqv1.Option) (*kmsv1.GenerateDataKeyOutput, error) {
+	if err := f.c.checkKey("gen", f.region, in.KeyId); err != nil {
+		return nil, err
+	}
 	p, b, err := f.c.generate(f.region, *in.KeyId)
 	if err != nil {
 		return nil, err
@@ -168,6 +197,9 @@ func (f fakeV1) GenerateDataKeyWithContext(_ awsv1.Context, in *kmsv1.GenerateDa
 }
 
 func (f fakeV1) DecryptWithContext(_ awsv1.Context, in *kmsv1.DecryptInput, _ ...reqv1.Option) (*kmsv1.DecryptOutput, error) {
+	if vsched.Active() {
+		vsched.Yield("kms.dec." + f.region)
+	}
 	p, err := f.c.decrypt(f.region, in.CiphertextBlob)
 	if err != nil {
 		return nil, err
@@ -182,6 +214,9 @@ type fakeV2 struct {
 }
 
 func (f fakeV2) Encrypt(_ context.Context, in *kmsv2.EncryptInput, _ ...func(*kmsv2.Options)) (*kmsv2.EncryptOutput, error) {
+	if err := f.c.checkKey("enc", f.region, in.KeyId); err != nil {
+		return nil, err
+	}
 	b, err := f.c.encrypt(f.region, in.Plaintext)
 	if err != nil {
 		return nil, err
@@ -190,6 +225,9 @@ func (f fakeV2) Encrypt(_ context.Context, in *kmsv2.EncryptInput, _ ...func(*km
 }
 
 func (f fakeV2) Decrypt(_ context.Context, in *kmsv2.DecryptInput, _ ...func(*kmsv2.Options)) (*kmsv2.DecryptOutput, error) {
+	if vsched.Active() {
+		vsched.Yield("kms.dec." + f.region)
+	}
 	p, err := f.c.decrypt(f.region, in.CiphertextBlob)
 	if err != nil {
 		return nil, err
@@ -198,6 +236,9 @@ func (f fakeV2) Decrypt(_ context.Context, in *kmsv2.DecryptInput, _ ...func(*km
 }
 
 func (f fakeV2) GenerateDataKey(_ context.Context, in *kmsv2.GenerateDataKeyInput, _ ...func(*kmsv2.Options)) (*kmsv2.GenerateDataKeyOutput, error) {
+	if err := f.c.checkKey("gen", f.region, in.KeyId); err != nil {
+		return nil, err
+	}
 	p, b, err := f.c.generate(f.region, *in.KeyId)
 	if err != nil {
 		return nil, err
@@ -318,6 +359,9 @@ func awsSpace(r *Report, prop string, maxN int) {
 						seenR[g] = true
 					}
 					orders[pair[0]+":"+strings.Join(genCalls, ",")] = true
+					if len(c.foreign) > 0 {
+						fail("C17", "request-names-foreign-key:"+pair[0], tag, "%s: %s", tag, c.foreign[0])
+					}
 					for i, b := range c.retained {
 						if !allZero(b) {
 							fail("C17", "datakey-plaintext-not-wiped", tag, "%s: plaintext from %s still readable after EncryptKey returned", tag, c.retainedOp[i])
@@ -465,9 +509,159 @@ func CheckC17(r *Report) {
 		n = 4
 	}
 	awsSpace(r, "C17", n)
+	c17Sched(r)
+	r.Rule += " || PLUS schedules: every interleaving (preemption bound 2, thorough 3) of the regional fan-out goroutines of EncryptKey with 3 (4) regions on both plugins, the regional endpoints being scheduling points that reject requests naming another region's key; the envelope has exactly one entry per succeeded region and every such region alone unwraps it"
 }
 
 var _ = ae.AES256KeySize
+
+// ---------------------------------------------------------------------------------
+// C17 (schedules): the plugins fan the regional Encrypt requests out to goroutines. EncryptKey (and the DecryptKey of
+// the result through every single region) is explored under the scheduler: every interleaving of the fan-out up to
+// the preemption bound, with the regional endpoints as scheduling points.
+// ---------------------------------------------------------------------------------
+
+type c17SchedScenario struct {
+	name      string
+	ver       string
+	n         int
+	preferred int
+	encFail   int // index of a region whose Encrypt fails, -1 none
+}
+
+func (sc c17SchedScenario) body(c *explore.Ctx) {
+	vsched.BeginQuiet()
+	cl := newCloud()
+	regions := c17Regions[:sc.n]
+	p, err := buildPlugin(sc.ver, cl, regions, regions[sc.preferred])
+	if err != nil {
+		panic(err)
+	}
+	if sc.encFail >= 0 {
+		cl.encFail[regions[sc.encFail]] = true
+	}
+	singles := map[string]kmsPlugin{}
+	for _, rg := range regions {
+		singles[rg], err = buildPlugin(sc.ver, cl, []string{rg}, rg)
+		if err != nil {
+			panic(err)
+		}
+	}
+	sk := []byte("system-key-bytes-32-bytes-long!!")
+	vsched.EndQuiet()
+	var env []byte
+	var werr error
+	pan := safe(func() { env, werr = p.EncryptKey(ctx, append([]byte(nil), sk...)) })
+	vsched.Quiesce()
+	if pan != "" {
+		c.Failf("panic", "EncryptKey panicked: %s", pan)
+		return
+	}
+	if b := vsched.Blocked(); len(b) > 0 {
+		c.Failf("goroutine-left-behind", "goroutines still parked after EncryptKey returned: %v", b)
+	}
+	if werr != nil {
+		c.Failf("wrap-failed", "EncryptKey failed although the preferred region can generate a data key: %v", werr)
+		return
+	}
+	if len(cl.foreign) > 0 {
+		c.Failf("request-names-foreign-key", "%s (calls %v)", cl.foreign[0], cl.calls)
+	}
+	for i, b := range cl.retained {
+		if !allZero(b) {
+			c.Failf("datakey-plaintext-not-wiped", "plaintext from %s still readable after EncryptKey returned", cl.retainedOp[i])
+		}
+	}
+	var ej envJSON
+	if err := json.Unmarshal(env, &ej); err != nil {
+		c.Failf("envelope-json", "envelope is not the documented JSON: %v", err)
+		return
+	}
+	got := map[string]int{}
+	for _, k := range ej.KMSKeks {
+		got[k.Region]++
+		if k.ARN != arnOf(k.Region) {
+			c.Failf("entry-wrong-arn", "the entry of region %s names key %s", k.Region, k.ARN)
+		}
+	}
+	var order []string
+	for i, rg := range regions {
+		want := 1
+		if i == sc.encFail && i != sc.preferred {
+			want = 0
+		}
+		if got[rg] != want {
+			c.Failf("wrap-entries", "region %s has %d entries in the envelope, want %d (every region that succeeded exactly once); calls %v", rg, got[rg], want, cl.calls)
+		}
+		if want == 1 && got[rg] == 1 {
+			// that region alone unwraps to the identical bytes
+			vsched.BeginQuiet()
+			out, derr := singles[rg].DecryptKey(ctx, env)
+			vsched.EndQuiet()
+			if derr != nil || !bytes.Equal(out, sk) {
+				c.Failf("single-region-unwrap", "region %s alone cannot unwrap the envelope to the identical bytes: %v", rg, derr)
+			}
+		}
+	}
+	for _, k := range ej.KMSKeks {
+		order = append(order, k.Region)
+	}
+	c.Outcome(strings.Join(order, ","))
+}
+
+func c17SchedScenarios(thorough bool) []c17SchedScenario {
+	var out []c17SchedScenario
+	for _, ver := range []string{"v1", "v2"} {
+		out = append(out,
+			c17SchedScenario{ver + "/3-regions-preferred-middle", ver, 3, 1, -1},
+			c17SchedScenario{ver + "/3-regions-one-encrypt-fails", ver, 3, 0, 2},
+		)
+		if thorough {
+			out = append(out,
+				c17SchedScenario{ver + "/4-regions-preferred-last", ver, 4, 3, -1},
+				c17SchedScenario{ver + "/4-regions-one-encrypt-fails", ver, 4, 1, 0},
+			)
+		}
+	}
+	return out
+}
+
+func c17Sched(r *Report) {
+	for _, sc := range c17SchedScenarios(r.Thorough()) {
+		sc := sc
+		if !r.TimeLeft() {
+			r.Exhaustive = false
+			r.Caps = append(r.Caps, "C17s/"+sc.name+": not started (time budget)")
+			continue
+		}
+		bound := 2
+		if r.Thorough() {
+			bound = 3
+		}
+		t0 := time.Now()
+		cfg := explore.Config{Name: "C17s/" + sc.name, Preemptions: bound, HBCache: true, Deadline: r.Deadline, MaxViolations: 20}
+		res := explore.Explore(cfg, sc.body)
+		seen := map[string]bool{}
+		var keep []explore.Violation
+		for _, v := range res.Violations {
+			if !seen[v.Sig] {
+				seen[v.Sig] = true
+				keep = append(keep, v)
+			}
+		}
+		res.Violations = keep
+		r.AddExplore(res, fmt.Sprintf("preemptions <= %d", bound), time.Since(t0).Seconds())
+	}
+}
+
+func c17SchedReplayBody(h string) explore.Body {
+	for _, sc := range c17SchedScenarios(true) {
+		if "C17s/"+sc.name == h {
+			return sc.body
+		}
+	}
+	return nil
+}
 
 func persistenceMemory() ae.Metastore { return persistence.NewMemoryMetastore() }
 
